@@ -342,8 +342,10 @@ Section PrintArr.
 Variables dec2f dec2d : list Z -> Z.
 Variable o : popts.
 Variable parr : parr_t.
+Variable fu : nat.        (* the element printer is print_arg_val_f (S (S fu)): the fuel counts the nesting *)
 Variables zf zd : Z.
 Hypothesis Hz : zchoice zf zd.
+Notation pavf := (print_arg_val_f (S (S fu))).
 Notation item_ok := (item_ok dec2f dec2d).
 Notation iter_text := (iter_text dec2f dec2d).
 Notation iseq_from := (iseq_from dec2f dec2d).
@@ -352,7 +354,7 @@ Notation iseq_from := (iseq_from dec2f dec2d).
 Lemma print_iter_any_sa a0 rest size prev t tmp cols cols1 bb cv :
   goodc o zf zd a0 -> Forall (goodca o zf zd) rest -> Z.of_nat (length (a0 :: rest)) < 2 ^ 31 ->
   convert_to_range o (a0 :: rest) size = cv -> cv <> CUnmod ->
-  print_arg_val o (match cv with CYes c _ => c | _ => a0 :: rest end) cols prev = Some (t, tmp, cols1, bb) ->
+  pavf o (match cv with CYes c _ => c | _ => a0 :: rest end) cols prev = Some (t, tmp, cols1, bb) ->
   exists its inc,
     bb = false /\ tmp = len t /\
     Z.of_nat inc = (match cv with CYes _ kk => kk | _ => next_arg_offset (a0 :: rest) end) /\
@@ -362,10 +364,10 @@ Lemma print_iter_any_sa a0 rest size prev t tmp cols cols1 bb cv :
     (match cv with CYes _ _ => Z.of_nat inc <= size | _ => inc = 1%nat end) /\ first_notconf prev its.
 Proof.
   intros Hg0 Hgr Hlen Hcv Hnu Hp. destruct (compress o) eqn:Ec.
-  - exact (print_iter_sa dec2f dec2d o Ec zf zd Hz a0 rest size prev t tmp cols cols1 bb cv Hg0 Hgr Hlen Hcv Hnu Hp).
+  - exact (print_iter_sa dec2f dec2d o Ec zf zd Hz fu a0 rest size prev t tmp cols cols1 bb cv Hg0 Hgr Hlen Hcv Hnu Hp).
   - unfold convert_to_range in Hcv. rewrite Ec in Hcv. cbn [negb] in Hcv. rewrite !orb_true_r in Hcv. subst cv.
     destruct (goodc_facts o zf zd a0 Hg0) as (Hs0 & _ & _).
-    unfold print_arg_val in Hp. rewrite (pav_scalar o a0 rest cols prev 5 Hs0) in Hp.
+    rewrite (pav_scalar o a0 rest cols prev (S fu) Hs0) in Hp.
     destruct (print_scalar o a0 cols) as [[[t' w'] c']|] eqn:Eps; [|discriminate]. inversion Hp; subst.
     destruct (goodc_tok dec2f dec2d o zf zd a0 cols t tmp cols1 Hg0 Eps) as (Htk & Hnd & Hw).
     exists [IVal a0 t], 1%nat. split; [reflexivity|]. split; [exact Hw|].
@@ -377,7 +379,7 @@ Lemma print_iter_any a0 rest size prev t tmp cols cols1 bb cv :
   Forall (goodc o zf zd) (a0 :: rest) -> Z.of_nat (length (a0 :: rest)) < 2 ^ 31 ->
   (forall p, prev = Some p -> scalar p) ->
   convert_to_range o (a0 :: rest) size = cv -> cv <> CUnmod ->
-  print_arg_val o (match cv with CYes c _ => c | _ => a0 :: rest end) cols prev = Some (t, tmp, cols1, bb) ->
+  pavf o (match cv with CYes c _ => c | _ => a0 :: rest end) cols prev = Some (t, tmp, cols1, bb) ->
   exists its inc,
     bb = false /\ tmp = len t /\
     Z.of_nat inc = (match cv with CYes _ kk => kk | _ => next_arg_offset (a0 :: rest) end) /\
@@ -446,12 +448,12 @@ Lemma arr_step a0 es more prev i n acc (first bb : bool) wrt cols awtl fuel res 
   Forall (goodc o zf zd) (a0 :: es) -> Forall (goodca o zf zd) more ->
   Z.of_nat (length ((a0 :: es) ++ more)) < 2 ^ 31 ->
   n + 1 - i = Z.of_nat (length (a0 :: es)) ->
-  print_array_loop print_arg_val parr (S fuel) o ((a0 :: es) ++ more) prev i n acc first bb wrt cols awtl = Some res ->
+  print_array_loop pavf parr (S fuel) o ((a0 :: es) ++ more) prev i n acc first bb wrt cols awtl = Some res ->
   exists its1 inc t (brk : bool) cols2 awtl2,
     (1 <= inc <= length (a0 :: es))%nat /\ iorig its1 = firstn inc (a0 :: es) /\
     iter_text prev its1 t /\ (forall p, ilast its1 = Some p -> scalar p) /\ first_notconf prev its1 /\
     nth_error (a0 :: es) (inc - 1) = ilast its1 /\
-    print_array_loop print_arg_val parr fuel o (skipn inc (a0 :: es) ++ more) (ilast its1) (i + Z.of_nat inc) n
+    print_array_loop pavf parr fuel o (skipn inc (a0 :: es) ++ more) (ilast its1) (i + Z.of_nat inc) n
       (if first then (if brk then sp4 ++ acc ++ t else acc ++ t)
        else acc ++ (if brk then nl4 else [32]) ++ t)
       false (bb || (first && brk)) (wrt + len t + (if brk then 4 else 0) + 1) (cols2 + 1) awtl2 = Some res.
@@ -469,8 +471,8 @@ Proof.
   1: rewrite Hty in Hrun.
   2: destruct (conv_yes_head o _ _ _ _ Ecv) as (n0 & h0 & r0 & Ec0); rewrite Ec0 in Hrun;
      cbn [hd_type av_type] in Hrun; change (45 =? 97) with false in Hrun; cbv iota in Hrun; rewrite <- Ec0 in Hrun.
-  all: match type of Hrun with context [print_arg_val ?oo ?inp ?cc ?pp] =>
-         destruct (print_arg_val oo inp cc pp) as [[[[t tmp] cols1] bb1]|] eqn:Epr; [|discriminate] end.
+  all: match type of Hrun with context [print_arg_val_f ?ff ?oo ?inp ?cc ?pp] =>
+         destruct (print_arg_val_f ff oo inp cc pp) as [[[[t tmp] cols1] bb1]|] eqn:Epr; [|discriminate] end.
   all: match type of Ecv with _ = ?cv =>
          destruct (print_iter_any_sa a0 rest (n + 1 - i) prev t tmp cols cols1 bb1 cv (Forall_inv Hg) Hgr Hlen Ecv ltac:(discriminate) Epr)
            as (its1 & inc & -> & -> & Hinc & Hrange & Horig & Hit & Hnth & Hle & Hnc) end.
@@ -500,7 +502,7 @@ Qed.
 Lemma print_arr_loop_iseq : forall fuel elems more prev i n acc bb wrt cols awtl text w c bb',
   Forall (goodc o zf zd) elems -> Forall (goodca o zf zd) more ->
   Z.of_nat (length (elems ++ more)) < 2 ^ 31 -> n + 1 - i = Z.of_nat (length elems) ->
-  print_array_loop print_arg_val parr fuel o (elems ++ more) prev i n acc false bb wrt cols awtl = Some (text, w, c, bb') ->
+  print_array_loop pavf parr fuel o (elems ++ more) prev i n acc false bb wrt cols awtl = Some (text, w, c, bb') ->
   exists its sfx, text = acc ++ sfx /\ w = wrt + len sfx /\ bb' = bb /\
     iseq_from true prev its sfx /\ iorig its = elems /\
     (elems <> [] -> nth_error elems (length elems - 1) = ilast its).
@@ -539,7 +541,7 @@ Qed.
 Lemma print_array_iseq n ty elems more cols blank text w c bb :
   Forall (goodc o zf zd) elems -> Forall (goodca o zf zd) more ->
   Z.of_nat (length (elems ++ more)) < 2 ^ 31 -> n = Z.of_nat (length elems) -> elems <> [] ->
-  print_array print_arg_val parr o (VArr ty n :: elems ++ more) cols blank = Some (text, w, c, bb) ->
+  print_array pavf parr o (VArr ty n :: elems ++ more) cols blank = Some (text, w, c, bb) ->
   exists its T, text = (if bb then sp4 else []) ++ 91 :: T ++ [93] /\ w = len text /\
     iseq_from false None its T /\ iorig its = elems /\ its <> [] /\
     nth_error elems (length elems - 1) = ilast its.
@@ -737,7 +739,7 @@ Proof.
                 (Hs 1%nat None true false) (Hc 1%nat [] 0 true)) as [H1 H2].
     split; [reflexivity|]. split; [exact H1|]. split; [exact H2|]. split; reflexivity.
   - rewrite <- (app_nil_r (a0 :: rest)) in Epa at 2.
-    destruct (print_array_iseq dec2f dec2d o print_arr zf zd Hz _ ty (a0 :: rest) [] 0 false t tmp cols1 false Hg (Forall_nil _)
+    destruct (print_array_iseq dec2f dec2d o print_arr 4 zf zd Hz _ ty (a0 :: rest) [] 0 false t tmp cols1 false Hg (Forall_nil _)
                 ltac:(rewrite app_nil_r; lia) eq_refl
                 ltac:(discriminate) Epa) as (its & T & -> & -> & Hseq & Horig & Hne & _).
     destruct (iseq_from_iseq dec2f dec2d _ _ _ _ Hseq Hne) as (sepz & T' & -> & HL & ->). cbn [app].
